@@ -309,8 +309,13 @@ def run(core_mir, wasm_mir, shape, N, repo_root):
                 it.call_fn(f_ignore, [Ref(lcell), text_arg(), victim])
                 r2 = [c.v for c in it.call_fn(f_lint, [Ref(lcell), text_arg(), lang]).elems]
                 # the ignored lint is gone
-                claims.append((z3.Not(z3.Or(*[z3.And(parts(x)[0] == vs, parts(x)[1] == ve, parts(x)[2].fields[3].chars[0].t == vinner.fields[3].chars[0].t)
-                                              for x in r2])) if r2 else z3.BoolVal(True), "an ignored lint is returned again by lint()"))
+                def same_lint(x):
+                    # the very same lint: span, message, priority and replacement (two lints may share span and message)
+                    xi = parts(x)[2]
+                    return z3.And(parts(x)[0] == vs, parts(x)[1] == ve, xi.fields[3].chars[0].t == vinner.fields[3].chars[0].t,
+                                  xi.fields[4].t == vinner.fields[4].t,
+                                  deref(deref(xi.fields[2]).elems[0].v.fields[0]).elems[0].v.t == deref(deref(vinner.fields[2]).elems[0].v.fields[0]).elems[0].v.t)
+                claims.append((z3.Not(z3.Or(*[same_lint(x) for x in r2])) if r2 else z3.BoolVal(True), "an ignored lint is returned again by lint()"))
                 # every other lint (another message) is still there
                 for x in range(len(r1)):
                     if x == j:
